@@ -240,6 +240,7 @@ CHECKS = {
     'C12': {
         'level': 'model_checking',
         'jobs': [
+            T('MC_Inproc', 'Inproc.cfg'), C('inproc', 'TestInproc', 'TraceInproc'),
             {'type': 'custom', 'name': 'lock-static', 'fn': lock_static, 'want': 'bugs'},
             T('MC_Core', 'Core_C14_sync.cfg'),
             C('errors', 'TestErrorsReal', 'TraceErrors', trivial_len=3),
@@ -297,6 +298,7 @@ CHECKS = {
     'C17': {
         'level': 'model_checking',
         'jobs': [
+            R('xrep', 'xrep'), R('xrespondent', 'xrespondent'),
             T('MC_Msg', 'Msg.cfg', workers=4),
             C('msg', 'TestMsg', 'TraceMsg', n={'quick': 12, 'thorough': 150}, trivial_len=6),
             C('msgpool', 'TestMsgPool', 'TraceMsg', trivial_len=0, vtimeout=3000),
@@ -328,6 +330,8 @@ CHECKS = {
     'C19': {
         'level': 'model_checking',
         'jobs': [
+            T('MC_Core', 'Core_C14_nomax.cfg', tiers=('thorough',)), C('core', 'TestCore', 'TraceCore', env={'VERIF_CORE_MIX': 'storm'}, n={'quick': 40, 'thorough': 400}),
+            C('wirereal', 'TestWireReal', 'TraceWire', trivial_len=3),
             T('MC_Options', 'Options.cfg', workers=4),
             C('opts', 'TestOptions', 'TraceOptions', trivial_len=5, vtimeout=3000),
             C('optresize', 'TestOptResize', 'TraceOptions', trivial_len=0),
@@ -358,6 +362,7 @@ CHECKS = {
     'C02': {
         'level': 'model_checking',
         'jobs': [
+            C('link', 'TestLinkReal', 'TraceLink', env={'VERIF_LINK_PATS': 'pair,pushpull,xpair,xpushxpull'}),
             T('MC_RawSock', 'Raw_xpair.cfg'), T('MC_RawSock', 'Raw_xpair_sq0.cfg'), T('MC_RawSock', 'Raw_xpush.cfg'),
             T('MC_RawSock', 'Raw_xpush_fnp.cfg'), T('MC_RawSock', 'Raw_xpull.cfg'),
             R('xpair', 'xpair'), R('pair', 'xpair'), R('xpair1', 'xpair1'), R('pair1', 'xpair1'),
@@ -508,6 +513,7 @@ CHECKS = {
     'C14': {
         'level': 'model_checking',
         'jobs': [
+            T('MC_Inproc', 'Inproc.cfg'), C('inproc', 'TestInproc', 'TraceInproc'),
             T('MC_Core', 'Core_C14_async.cfg'),
             T('MC_Core', 'Core_C14_sync.cfg'),
             T('MC_Core', 'Core_C14_nomax.cfg', tiers=('thorough',)),
